@@ -497,6 +497,54 @@ def helper_alias_rules(m, run, key, rows_param='ctrlpts', pu1=True):
     return cnt
 
 
+def optional_coordinate_rule(m, run, mods=('operations', '_operations', 'BSpline', 'NURBS', 'abstract')):
+    """NONE1: an optional parametric coordinate (parameter named u, v, w or t with default None) is tested with `is None` / `is not None`,
+    never by truthiness: 0.0 is a valid coordinate (the start of every normalised domain) and is falsy.  Reports every truthiness use;
+    zero instances expected, a positive control is analysed on every run."""
+    def findings(fn):
+        a = fn.args
+        ps = a.args
+        dflt = dict(zip([p.arg for p in ps[len(ps) - len(a.defaults):]], a.defaults))
+        opt = {p for p, d in dflt.items() if isinstance(d, ast.Constant) and d.value is None and p in ('u', 'v', 'w', 't')}
+        out = []
+        if not opt:
+            return out, 0
+
+        def truthy(e):
+            if isinstance(e, ast.Name) and e.id in opt:
+                return e
+            if isinstance(e, ast.UnaryOp) and isinstance(e.op, ast.Not):
+                return truthy(e.operand)
+            if isinstance(e, ast.BoolOp):
+                for v in e.values:
+                    t = truthy(v)
+                    if t is not None:
+                        return t
+            return None
+        for x in walk_no_nested(fn):
+            test = x.test if isinstance(x, (ast.If, ast.While, ast.IfExp)) else None
+            if test is not None:
+                t = truthy(test)
+                if t is not None:
+                    out.append((x, t.id))
+        return out, len(opt)
+    n_opt = 0
+    for fi in sorted(m.funcs.values(), key=lambda f: f.key):
+        if fi.mod not in mods:
+            continue
+        fs, k = findings(fi.node)
+        n_opt += k
+        for node, name in fs:
+            run.ob('NONE1.optional-coordinate-tested-with-is-none', '%s :: %s' % (fi.key, norm(node.test if hasattr(node, 'test') else node)[:50]), False,
+                   'the optional coordinate `%s` is tested by truthiness: the valid value 0.0 is treated like a missing argument' % name, site(fi, node))
+    ctl = ast.parse('def f(u, v=None):\n    if not v:\n        return 1\n    return 2\n').body[0]
+    if len(findings(ctl)[0]) != 1:
+        raise AnalysisError('NONE1 positive control not reported: rule is broken')
+    run.ob('NONE1.optional-coordinate-tested-with-is-none', 'package', True, '%d optional coordinates scanned; positive control reported' % n_opt)
+    if n_opt < 3:
+        raise AnalysisError('NONE1: only %d optional coordinates found' % n_opt)
+
+
 def unit_range_rule(m, run, names, mods=('BSpline', 'abstract', 'NURBS')):
     """RG1: the rejection of parameters outside [0, 1] (utilities.check_params) applies to shapes with normalised knot vectors only:
     every evaluation of check_params in the named methods is reached only when `self._kv_normalize` holds (CFG facts on every
